@@ -22,6 +22,10 @@ const (
 	// https://regex101.com/r/DyYNZD/1
 	RegexToReplacePathParameters string = "/[^/]+"
 
+	// Regex for replacing a parameter in the host of a URL (one host label), e.g.:
+	// ^[^/.]+\.twitter\.com/user$
+	RegexToReplaceHostParameters string = "[^/.]+"
+
 	// Regex for replacing wildcard in URL, e.g.:
 	// ^twitter\.com\/user(/.*)?$
 	// See unit tests for matching/non-matching URL examples:
@@ -56,8 +60,6 @@ var (
 	haproxyReqCaptureNeededFrom = "http://localhost:" + haproxyManagePort + "/capture_req_from"
 	haproxyReqCaptureFormAll    = "http://localhost:" + haproxyManagePort + "/capture_req_all"
 )
-
-var regexToFindPathParameters = regexp.MustCompile(`^/\{[a-zA-Z0-9-_]+\}$`)
 
 type HAProxyEndpointData struct {
 	Endpoint     string
@@ -167,16 +169,26 @@ func formatURLParts(urlParts []urltree.URLPart) (string, bool) {
 			formattedURL.WriteString(RegexToReplaceWildcard)
 			continue
 		}
-		if !urlPart.IsPartOfHost && regexToFindPathParameters.MatchString("/"+urlPart.Value) {
-			formattedURL.WriteString(RegexToReplacePathParameters)
-			continue
-		}
 		if index > 0 {
 			formattedURL.WriteString(partDelimiter(urlPart))
+		}
+		// every part the URL tree treats as a parameter matches one whole
+		// host label or path segment, whatever the parameter is called
+		if _, isParam := urltree.TryExtractPathParameter(urlPart.Value); isParam {
+			formattedURL.WriteString(parameterRegex(urlPart))
+			continue
 		}
 		formattedURL.WriteString(regexp.QuoteMeta(urlPart.Value))
 	}
 	return formattedURL.String(), hasWildcard
+}
+
+// parameterRegex matches one path segment, or one host label
+func parameterRegex(urlPart urltree.URLPart) string {
+	if urlPart.IsPartOfHost {
+		return RegexToReplaceHostParameters
+	}
+	return strings.TrimPrefix(RegexToReplacePathParameters, "/")
 }
 
 // partDelimiter is what precedes a URL part in the expression
